@@ -148,6 +148,10 @@ def advance : Nat → Sched → Int → Sched × List Out
       else settle (fuelFor s) { s with now := max s.now target }
     | _, _ => settle (fuelFor s) { s with now := max s.now target }
 
+/-- `if p.tasks.taskTaken { p.tasks.UnlockAndRemove() }` -/
+def dropInService (tl : TaskList) : TaskList :=
+  if tl.taken then (match tl.unlockAndRemove with | .ok tl' => tl' | .error _ => tl) else tl
+
 /-- `onDisconnect`: every queued task is told, the one in service is dropped -/
 def disconnectOuts (ts : List Task) : List Out :=
   ts.flatMap fun t => [.onDisconnect t.tid t.remaining, .onEnd t.tid t.remaining .minerDisconnected]
@@ -181,15 +185,13 @@ def step (s : Sched) (ev : Ev) : Sched × List Out :=
       | _, _ => []
     if destErr then
       -- Run: UnlockAndRemove, report, reconnect to the primary destination, go on with the queue
-      let tl := if s.tl.taken then (match s.tl.unlockAndRemove with | .ok tl => tl | .error _ => s.tl) else s.tl
       let back : List Out := if s.cur = s.primary then [] else [.setDest s.primary false]
-      let s1 := { s with tl := tl, cur := s.primary, cb := none, idle := false }
+      let s1 := { s with tl := dropInService s.tl, cur := s.primary, cb := none, idle := false }
       let r := settle (fuelFor s1) s1
       (r.1, head ++ [.destErr] ++ back ++ r.2)
     else
       let outs := head ++ disconnectOuts s.tl.tasks
-      let tl := if s.tl.taken then (match s.tl.unlockAndRemove with | .ok tl => tl | .error _ => s.tl) else s.tl
-      ({ s with tl := tl, exited := true }, outs ++ [.exited])
+      ({ s with tl := dropInService s.tl, exited := true }, outs ++ [.exited])
 
 def init (primary : String) : Sched × List Out :=
   settle 3 { primary := primary, cur := primary }
